@@ -44,8 +44,8 @@ theorem closedUnder_sound {edges : Edges} {S : List Nat} (h : closedUnder edges 
   have := (List.all_eq_true.mp h) (a, b) he
   simp only [Bool.or_eq_true, Bool.not_eq_true', List.contains_iff_mem] at this
   rcases this with h1 | h1
-  · have : S.contains a = true := List.contains_iff_mem.mpr ha
-    simp [h1] at this
+  · have h2 : S.contains a = true := List.contains_iff_mem.mpr ha
+    rw [h1] at h2; cases h2
   · exact h1
 
 theorem closedUnderRev_sound {edges : Edges} {S : List Nat} (h : closedUnderRev edges S = true) :
@@ -54,8 +54,8 @@ theorem closedUnderRev_sound {edges : Edges} {S : List Nat} (h : closedUnderRev 
   have := (List.all_eq_true.mp h) (a, b) he
   simp only [Bool.or_eq_true, Bool.not_eq_true', List.contains_iff_mem] at this
   rcases this with h1 | h1
-  · have : S.contains b = true := List.contains_iff_mem.mpr hb
-    simp [h1] at this
+  · have h2 : S.contains b = true := List.contains_iff_mem.mpr hb
+    rw [h1] at h2; cases h2
   · exact h1
 
 /-- list form of `closed_set_sound`, the shape `decide` discharges -/
